@@ -11,6 +11,7 @@ package machine
 import (
 	"bytes"
 	"crypto/rand"
+	"encoding/binary"
 	"errors"
 	"fmt"
 	"log/slog"
@@ -422,6 +423,20 @@ func (e *exec) mutate(a []string) []byte {
 		if off <= len(src) && off <= len(other) {
 			src = append(src[:off:off], other[off:]...)
 		}
+	case "hdr": // rewrite a field of the 16-byte nebula header, which Noise does not authenticate
+		if len(src) >= header.Len {
+			v := hlib.Atou(a[5])
+			switch a[4] {
+			case "ctr":
+				binary.BigEndian.PutUint64(src[8:16], v)
+			case "ri":
+				binary.BigEndian.PutUint32(src[4:8], uint32(v))
+			case "rsv":
+				binary.BigEndian.PutUint16(src[2:4], uint16(v))
+			case "vt":
+				src[0] = byte(v)
+			}
+		}
 	case "garbage":
 		r := hlib.NewRand(hlib.Atou(a[4]))
 		src = append(src[:min(len(src), header.Len)], r.Bytes(hlib.Atoi(a[5]))...)
@@ -826,7 +841,24 @@ func genCase(r *hlib.Rand, e *exec, do func(string, ...any) string, tier, profil
 	if r.Chance(2, 5) {
 		attack("R", "m1", "1", 1)
 	}
-	res := do("pp R m1 m2")
+	// the genuine messages may reach the peer with their (unauthenticated) nebula header rewritten in flight
+	hdrMut := func(dst, src string) string {
+		if !r.Chance(1, 3) {
+			return src
+		}
+		switch r.Intn(6) {
+		case 0, 1, 2:
+			do("mut %s %s hdr ctr %d", dst, src, hlib.Pick[uint64](r, 0, 1, 2, 3, 7, 4096, 8191, 8192, 1<<32, ^uint64(0), r.U64()))
+		case 3:
+			do("mut %s %s hdr ri %d", dst, src, hlib.Pick[uint64](r, 0, 1, 1<<32-1, uint64(r.Intn(1<<30))))
+		case 4:
+			do("mut %s %s hdr rsv %d", dst, src, hlib.Pick[uint64](r, 1, 255, 256, 65535))
+		case 5:
+			do("mut %s %s hdr vt %d", dst, src, hlib.Pick[uint64](r, 0x00, 0x10, 0x11, 0x1f, 0x20, 0xf0, 0xff))
+		}
+		return dst
+	}
+	res := do("pp R %s m2", hdrMut("m1h", "m1"))
 	if r.Chance(1, 10) {
 		do("pp R m1 m2b") // replayed message 1 at a completed responder
 	}
@@ -842,7 +874,7 @@ func genCase(r *hlib.Rand, e *exec, do func(string, ...any) string, tier, profil
 	if r.Chance(1, 12) {
 		do("pp I m1 x2") // own message reflected
 	}
-	do("pp I m2 x3")
+	do("pp I %s x3", hdrMut("m2h", "m2"))
 	if r.Chance(1, 8) {
 		do("pp I m2 x4") // duplicate of the genuine message 2
 	}
